@@ -1,9 +1,19 @@
 /-
-Lemmas.PanicFree — the library behind the panic-freedom properties C14p–C18p.
+Lemmas.PanicFree — the library behind the panic-freedom properties C14p–C18p (namespace `PF`).
 
 Part 1 (structural): well-formedness (`TwoFloat.WF`: both words are bit patterns of doubles) is preserved by
-every `TwoFloat` operation the elementary functions use.  All the arithmetic operators end in a
-`fast_two_sum`/`renorm3`, whose words are results of IEEE additions, so their results are WF unconditionally.
+  every `TwoFloat` operation the elementary functions use.  All the arithmetic operators end in a
+  `fast_two_sum`/`renorm3`, whose words are results of IEEE additions, so their results are WF unconditionally.
+Part 2: machine-integer facts — `exp_half_pf` (`|n| ≤ 1439`), `expm1_128th_pf` (`|n| ≤ 32`), `mul_pow2_pf` (every
+  in-range `i32`: the loop of `mul_pow2` ends within its fuel of 2 100 000 iterations).
+Part 3: casts and roundings of doubles (`x as i32` saturates; `round`/`trunc`/`as i32` of a bounded double).
+Part 4: the exponential family — `expm1_quarter_pf`, `exp2_pf` (ALL arguments), the argument reduction `exp_reduce`,
+  and `exp_pf` (valid arguments) / `exp_pf_inv` (C01 invariant).
+Part 5: the invariant `Good = Inv ∧ WF` through `expm1_quarter`, `exp_half`, `exp` (relative to the closed fact
+  `ExpHalfRecipInv`, proved in `C14p.expHalfRecipInv`).
+Part 6: logarithms — `libm` seeds are WF, `ln_pf`, `good_ln`, `log_pf`, `log10_pf`, `log2_pf` (ALL arguments),
+  `exp_m1_pf`.
+Part 7: `cosh_pf`, `sinh_pf`, `tanh_pf`, `powf_pf`.
 -/
 import TFV.Lemmas.ArithExact
 import TFV.Lemmas.Inv
